@@ -77,6 +77,20 @@ async function run_table(rbql_csv, b, t, seq) {
             const it = new rbql_csv.CSVRecordIterator(rs, null, enc, b.dlm, b.pol);
             const recs = await it.get_all_records();
             res.readback = [recs, warn_kinds(it.get_warnings())];
+            if (seq % 2 == 0) {
+                // ... and through the bulk path (the file read in one piece): it must read the same table
+                const fs = require('fs'), os = require('os');
+                const tmp = path.join(os.tmpdir(), 'c10_' + process.pid + '_' + (seq % 4) + '.csv');
+                fs.writeFileSync(tmp, raw);
+                try {
+                    const itb = new rbql_csv.CSVRecordIterator(null, tmp, enc, b.dlm, b.pol);
+                    const recsb = await itb.get_all_records();
+                    const rb = [recsb, warn_kinds(itb.get_warnings())];
+                    if (JSON.stringify(rb) !== JSON.stringify(res.readback)) res.readback = ['BULK-DIFFERS', rb, res.readback];
+                } finally {
+                    try { fs.unlinkSync(tmp); } catch (e2) {}
+                }
+            }
         } catch (e) {
             res.readback = ['ERR', (e && e.constructor && e.constructor.name) || 'Error'];
         }
